@@ -397,3 +397,90 @@ def char_region_image(body, start_bb, env_fn, sink_re, sink_arg=1, stop_after=Tr
             continue
         raise Undecided("the region does not reach the sink for atom %r" % (a,))
     return out
+
+
+def explore_consts(body, env0, on_call, max_nodes=20000):
+    """Path-sensitive constant propagation over the CFG of `body`: env maps locals to known scalars (ints / bools);
+    env0 is the initial knowledge (e.g. a parameter: for a fieldless enum give its variant index under key
+    ('variant', local)).  Switches on known values follow one successor, others all.  on_call(site_bb, term, env) is
+    called at every call terminator reached.  Loops are cut by memoising (block, env)."""
+    seen = set()
+    work = [(0, tuple(sorted(env0.items(), key=str)))]
+    n = 0
+    while work:
+        bb, envt = work.pop()
+        if (bb, envt) in seen:
+            continue
+        seen.add((bb, envt))
+        n += 1
+        if n > max_nodes:
+            raise Undecided("too many (block, constants) states")
+        env = dict(envt)
+        blk = body.blocks[bb]
+        for st in blk["stmts"]:
+            if st["k"] == "assign":
+                p = st["place"]
+                if p["p"]:
+                    env.pop(p["l"], None)
+                    continue
+                rv = st["rv"]
+                val = None
+                var = None
+                if rv["k"] in ("use", "cast"):
+                    o = rv["op"]
+                    if o.get("k") == "const" and "val" in o:
+                        val = o["val"]
+                    elif o.get("k") == "const" and o.get("variant") is not None:
+                        var = o.get("variant")
+                    elif o.get("k") in ("move", "copy") and not o["place"]["p"]:
+                        val = env.get(o["place"]["l"])
+                        var = env.get(("variant", o["place"]["l"]))
+                elif rv["k"] == "discr" and not rv["place"]["p"]:
+                    val = env.get(("variant", rv["place"]["l"]))
+                elif rv["k"] == "agg" and rv.get("akind") == "adt" and not rv.get("ops"):
+                    var = rv.get("variant_index", rv.get("variant"))
+                elif rv["k"] == "un" and rv.get("op") == "Not" and rv["a"].get("k") in ("move", "copy") and not rv["a"]["place"]["p"]:
+                    v0 = env.get(rv["a"]["place"]["l"])
+                    val = (0 if v0 else 1) if v0 is not None else None
+                env.pop(p["l"], None)
+                env.pop(("variant", p["l"]), None)
+                if val is not None:
+                    env[p["l"]] = val
+                if var is not None:
+                    env[("variant", p["l"])] = var
+        t = blk["term"]
+        if t is None:
+            continue
+        k = t["k"]
+        succ = []
+        if k == "switch":
+            d = t["discr"]
+            v = None
+            if d.get("k") == "const" and "val" in d:
+                v = d["val"]
+            elif d.get("k") in ("move", "copy") and not d["place"]["p"]:
+                v = env.get(d["place"]["l"])
+            if v is not None and not isinstance(v, str):
+                nxt = t["otherwise"]
+                for val, tgt in t["targets"]:
+                    if val == int(v):
+                        nxt = tgt
+                succ = [nxt]
+            else:
+                succ = [x[1] for x in t["targets"]] + [t["otherwise"]]
+        elif k == "call":
+            on_call(bb, t, env)
+            if not t["dest"]["p"]:
+                env.pop(t["dest"]["l"], None)
+                env.pop(("variant", t["dest"]["l"]), None)
+            if t.get("target") is not None:
+                succ = [t["target"]]
+        elif k in ("goto", "drop", "assert"):
+            if t.get("target") is not None:
+                succ = [t["target"]]
+        elif k == "other":
+            succ = list(t.get("succ", []))
+        et = tuple(sorted(env.items(), key=str))
+        for s_ in succ:
+            work.append((s_, et))
+    return n
